@@ -1069,6 +1069,9 @@ package mqtt
 //@ requires c.ReconnectWaitMin >= 0 && c.ReconnectWaitMax >= c.ReconnectWaitMin
 //@ modifies c.reconnectWait
 //@ at[C10] call AfterFunc#1: assert (c.readConn != nil ==> d == 1000000000) && (c.readConn == nil ==> d >= c.ReconnectWaitMin && d <= c.ReconnectWaitMax)
+// the exponential ramp-up: after a lost connection the delay is the stored one brought within the configured bounds,
+// and twice that delay is stored for the next time (a refused connection waits the maximum and leaves the store alone)
+//@ at[C10,id=ramp_up] call AfterFunc#1: assert c.readConn == nil ==> (d == c.ReconnectWaitMax && c.reconnectWait == old(c.reconnectWait)) || (d == ite(ite(old(c.reconnectWait) > c.ReconnectWaitMin, old(c.reconnectWait), c.ReconnectWaitMin) < c.ReconnectWaitMax, ite(old(c.reconnectWait) > c.ReconnectWaitMin, old(c.reconnectWait), c.ReconnectWaitMin), c.ReconnectWaitMax) && (d <= 4611686018427387903 ==> c.reconnectWait == 2 * d))
 //@ ensures[C10] err == nil || c.bigMessage != nil ==> ch == closed
 //@ ensures[C10,C12] err != nil && c.bigMessage == nil && Is(err, ErrClosed) ==> ch == nil
 //@ ensures[C10] err != nil && c.bigMessage == nil && !Is(err, ErrClosed) ==> ch != nil && fresh(ch)
